@@ -381,11 +381,13 @@ Section Session2.
     intros HI Hn. rewrite (iv_len _ _ _ _ HI). assert (f < length sg) by (apply nth_error_Some; congruence). unfold tView. lia.
   Qed.
 
-  Lemma add_node_ok U s w f kinds vs : SMid U s w -> nth_error sg f = Some kinds -> Forall2 (argv (edb s)) kinds vs ->
+  Lemma add_node_ok2 U s w f kinds vs : SMid U s w -> nth_error sg f = Some kinds -> Forall2 (argv (edb s)) kinds vs ->
     exists w' id, snd (enc_add_node s f vs) = VId id /\ SMid U (fst (enc_add_node s f vs)) w' /\
       Grows (edb s) (edb (fst (enc_add_node s f vs))) /\
       in_dom (edb (fst (enc_add_node s f vs))) (VId id) /\
-      viewE (edb (fst (enc_add_node s f vs))) f (vs ++ [VId id]).
+      viewE (edb (fst (enc_add_node s f vs))) f (vs ++ [VId id]) /\
+      (forall v, vlt (length w) v -> witv w' v = witv w v) /\ length w <= length w' /\
+      witv w' (VId id) = T f (map (witv w') vs).
   Proof.
     intros [[Hwl Hwt] HI Hu] Hn Hargs. unfold enc_add_node.
     set (d := edb s) in *. set (ts := eterms s) in *.
@@ -451,12 +453,23 @@ Section Session2.
       - eapply argv_cols; eauto.
       - eapply argv_dom; eauto.
       - destruct Hwok as [_ Hw2]. destruct (Hw2 id f vs Hnth) as [Hw3 _]. cbn [witv]. rewrite Hw3. apply cc_refl. }
-    exists w', id. split; [reflexivity|]. split; [|split; [exact HG|split; [exists (VId id); exact Hself|exact Hrow]]].
-    constructor; cbn [edb eterms].
-    - exact Hwok.
-    - exact HI2.
-    - intros a b Hab. apply (grows_eqv d d2 HG). apply Hu. unfold uffE in *. unfold d2, d1 in Hab.
-      rewrite !dbset_other in Hab; auto.
+    exists w', id. split; [reflexivity|]. split; [|split; [exact HG|split; [exists (VId id); exact Hself|split; [exact Hrow|split; [exact Hwv|split; [exact Hwle|]]]]]].
+    - constructor; cbn [edb eterms].
+      + exact Hwok.
+      + exact HI2.
+      + intros a b Hab. apply (grows_eqv d d2 HG). apply Hu. unfold uffE in *. unfold d2, d1 in Hab.
+        rewrite !dbset_other in Hab; auto.
+    - destruct Hwok as [_ Hw2]. destruct (Hw2 id f vs Hnth) as [Hw3 _]. cbn [witv]. exact Hw3.
+  Qed.
+
+  Lemma add_node_ok U s w f kinds vs : SMid U s w -> nth_error sg f = Some kinds -> Forall2 (argv (edb s)) kinds vs ->
+    exists w' id, snd (enc_add_node s f vs) = VId id /\ SMid U (fst (enc_add_node s f vs)) w' /\
+      Grows (edb s) (edb (fst (enc_add_node s f vs))) /\
+      in_dom (edb (fst (enc_add_node s f vs))) (VId id) /\
+      viewE (edb (fst (enc_add_node s f vs))) f (vs ++ [VId id]).
+  Proof.
+    intros HS Hn Ha. destruct (add_node_ok2 U s w f kinds vs HS Hn Ha) as (w' & id & H1 & H2 & H3 & H4 & H5 & _).
+    exists w', id. auto.
   Qed.
 End Session2.
 
